@@ -805,7 +805,7 @@ func (c *Ctx) returnsSyncMapKey(g *ssa.Function) bool {
 func (c *Ctx) checkRegackContinuation(r *Report, m *gwModel) {
 	// state cell of the retry transaction, as used by the REGACK handlers
 	stateCell := "f:transactions.RetryTransaction.State"
-	for _, txType := range []string{"*gateway.brokerPublishQOS0Transaction", "*gateway.brokerPublishQOS1Transaction", "*gateway.brokerPublishQOS2Transaction"} {
+	for _, txType := range []string{c.gwBrokerPub0Tx(), c.gwBrokerPub1Tx(), c.gwBrokerPub2Tx()} {
 		for _, rc := range []int64{0, 1, 2, 3} {
 			for _, inState := range []int64{0, 1} {
 				e := m.explorer()
